@@ -41,7 +41,10 @@ def vector_of(seg, upto):
     if r.get("kind") == "dict":
         v.update(t="dict", n=r["n"], keys=[e["key"] for e in evs if e.get("k") == "Key"])
     else:
-        v.update(t="walk", script=[{"k": e["k"], "c": e["c"], "i": e.get("i", 0)} for e in evs if e.get("k") in ("Cursor", "Ref", "Up", "Prune", "Create")])
+        v.update(t="walk", script=[{"k": e["k"], "c": e["c"], "h": e.get("h", 0), "nh": e.get("nh", 0), "i": e.get("i", 0)}
+                                   for e in evs if e.get("k") in ("Cursor", "Ref", "Prune", "Create")])
+    if r.get("preread"):
+        v["preread"] = "readall" if r["preread"] == "decode" else r["preread"]   # (decode = the library read every cell)
     return v
 
 
@@ -49,6 +52,10 @@ def finding_key(e, reason, cls):
     k = e.get("k")
     if cls == "leak":
         return "C18:prover-reuse:prunes-leak"                # pruned branches of an earlier request of the same prover reappear
+    if reason == "absent-key-proved":
+        return "C18:dict:absent-key-proved"                  # (whatever the source looks like)
+    if cls == "held":
+        return "C18:held-cursor:prune-set"                   # wrong positions pruned after a cursor value was kept while others were derived
     if cls == "partial":
         return "C18:partial-source:%s" % reason              # the source is the tree under an earlier proof; named by the failing clause
     if k == "Key":
@@ -93,6 +100,7 @@ def judge(ck, traces, stats):
                 nreq, "%d-bit dictionary" % r["n"] if r.get("kind") == "dict" else "tree", len(r["cells"]), r.get("src"), r.get("mode"))
             cl = {"twin": "; the key's path passes a fork whose two children are the same cell",
                   "valueref": "; a cell referenced by the key's value is the same cell as the sibling at a fork of its path",
+                  "held": "; a Prune went through a cursor value that was kept while other values were derived",
                   "leak": "; every unaccounted pruned branch was pruned by an EARLIER request of the same prover",
                   "partial": "; the source is the tree under an earlier proof (it contains pruned branches)"}.get(cls, "")
             if e.get("k") == "Key":
@@ -103,7 +111,13 @@ def judge(ck, traces, stats):
                     reason, e["c"], ctx, cl, e.get("msg", e["err"]), e["proof"][:400])
             else:
                 what = "recorded event has no action in MerkleProof_Trace (%s): %s" % (ctx, json.dumps(cellcommon.slim(e, 600)))
-            found.append((len(r["cells"]) * 1000 + rj["accepted"], key, what, {"kind": "vector", "vector": vector_of(seg, rj["accepted"])}))
+            found.append((len(r["cells"]) * 1000 + rj["accepted"], key, what, {"kind": "vector", "vector": vector_of(seg, rj["accepted"])},
+                          bool(r.get("preread")) and cls in ("plain", "partial", "")))
+    # what fails ONLY on provers whose cells had been read before NewMerkleProver (and not for a reason named by another input
+    # class) is named by that input class; the failing clause is in the text
+    plain_keys = {f[1] for f in found if not f[4]}
+    found = [(f[0], f[1] if (not f[4] or f[1] in plain_keys) else "C18:cells-read-before-prover",
+              f[2] + ("" if not f[4] else " [the cells of the source had advanced read cursors when the prover was built]"), f[3]) for f in found]
     if stats["skipped_two_step_segments"] and not found:
         raise Infra("%d two-step segments could not be judged (source is not a view of the original) although no first-step proof was rejected" % stats["skipped_two_step_segments"])
     return found
@@ -114,7 +128,8 @@ CANARY_EXPECT = [("W1", None), ("W2", ("pruned-but-not-asked", "leak")), ("W3", 
                  ("W5", None), ("W6", ("pruned-but-not-asked", "leak")), ("D1", None), ("D2", ("value:pruned", "leak")), ("D3", ("value:pruned", "plain")),
                  ("D4", ("absent-key-proved", "plain")), ("D5", ("stored-hash", "plain")), ("D6", ("returned-value", "plain")),
                  ("P1", None), ("P2", ("level-mask", "partial")), ("P3", ("stored-hash", "partial")), ("P4", ("pruned-cell", "partial")),
-                 ("Q1", None), ("Q2", ("stored-hash", "partial"))]
+                 ("Q1", None), ("Q2", ("stored-hash", "partial")),
+                 ("H1", None), ("H2", ("asked-but-not-pruned", "held")), ("K1", ("kept-cell", "plain"))]
 
 
 def canaries(ck):
@@ -150,9 +165,27 @@ def generate(ck):
             ("MerkleProof_Gen", "gen/MerkleProof_Gen_free_quick.cfg" if q else "gen/MerkleProof_Gen_free_full.cfg", "gen_walk_free"),
             ("MerkleProof_GenD", "gen/MerkleProof_GenD_quick.cfg" if q else "gen/MerkleProof_GenD_full.cfg", "gen_dict"),
             ("MerkleProof_Gen", "gen/MerkleProof_Gen_two_quick.cfg" if q else "gen/MerkleProof_Gen_two_full.cfg", "gen_walk_two"),
-            ("MerkleProof_GenD", "gen/MerkleProof_GenD_two_quick.cfg" if q else "gen/MerkleProof_GenD_two_full.cfg", "gen_dict_two")]
-    rs = vlib.parallel(lambda j: ck.tlc_or_infra(j[0], j[1], workers=3, timeout=1500, name=j[2], heap_gb=2), jobs, n=5)
-    walks, free, dicts, walks2, dicts2 = (r.vecs() for r in rs)
+            ("MerkleProof_GenD", "gen/MerkleProof_GenD_two_quick.cfg" if q else "gen/MerkleProof_GenD_two_full.cfg", "gen_dict_two"),
+            ("MerkleProof_Gen", "gen/MerkleProof_Gen_hold_quick.cfg" if q else "gen/MerkleProof_Gen_hold_full.cfg", "gen_walk_hold")]
+    rs = vlib.parallel(lambda j: ck.tlc_or_infra(j[0], j[1], workers=3, timeout=1500, name=j[2], heap_gb=2), jobs, n=6)
+    walks, free, dicts, walks2, dicts2, hold = (r.vecs() for r in rs)
+    if len(hold) < 5000:
+        raise Infra("hold generator produced too few vectors (%d)" % len(hold))
+    def held_deep(v):        # a Prune through a cursor value of depth >= 2 after a later value was derived from the same parent
+        depth, last = {0: 0}, 0
+        for st in v["script"]:
+            if st["k"] == "Cursor":
+                depth, last = {0: 0}, 0
+            elif st["k"] == "Ref":
+                depth[st["nh"]] = depth[st["h"]] + 1; last = st["nh"]
+            elif st["k"] == "Prune" and st["h"] != last and depth[st["h"]] >= 2:
+                return True
+        return False
+    for v in hold:
+        v["src"] = "gen:hold"
+    holdA, holdB = [v for v in hold if held_deep(v)], [v for v in hold if not held_deep(v)]
+    if not holdA:
+        raise Infra("no generated script prunes through a held cursor value of depth >= 2 (vacuous)")
     if len(walks) < 5000 or len(free) < 500 or len(dicts) < 1000 or len(walks2) < 5000 or len(dicts2) < 2000:
         raise Infra("generators produced too few vectors (%d, %d, %d, %d, %d)" % (len(walks), len(free), len(dicts), len(walks2), len(dicts2)))
     if not all(v["selfcheck"] for v in dicts + dicts2):
@@ -180,7 +213,8 @@ def generate(ck):
     if not twin:
         raise Infra("no generated dictionary has a fork with two equal children (vacuous)")
     ck.extra["generated"] = {"walk_dfs": len(walks), "walk_free": len(free), "dict": len(dicts), "dict_with_equal_siblings": len(twin),
-                             "walk_two_step": len(walks2), "dict_two_step": len(dicts2)}
+                             "walk_two_step": len(walks2), "dict_two_step": len(dicts2),
+                             "walk_hold": len(hold), "walk_hold_prune_through_held_value_depth>=2": len(holdA)}
     def later_request_after_prune(v):      # a session that starts after an earlier session pruned something
         seen = False
         for st in v["script"]:
@@ -192,17 +226,23 @@ def generate(ck):
     seq = [v for v in walks if later_request_after_prune(v)]
     other = [v for v in walks if not later_request_after_prune(v)]
     ck.extra["generated"]["walk_dfs_with_session_after_prune"] = len(seq)
-    for l in (seq, other, free, twin, plain, w2a, w2b, dicts2):
+    for l in (seq, other, free, twin, plain, w2a, w2b, dicts2, holdA, holdB):
         ck.rng.shuffle(l)
     if q:
         seq, other, free, twin, plain = seq[:200], other[:80], free[:80], twin[:100], plain[:150]
         w2a, w2b, dicts2 = w2a[:420], w2b[:60], dicts2[:320]
+        holdA, holdB = holdA[:260], holdB[:100]
     else:
         seq, other, free = seq[:7000], other[:3000], free[:4000]
         w2a, w2b, dicts2 = w2a[:12000], w2b[:1500], dicts2[:8000]
-    vecs = seq + other + free + twin + plain + w2a + w2b + dicts2
+        holdA, holdB = holdA[:9000], holdB[:3000]
+    vecs = seq + other + free + twin + plain + w2a + w2b + dicts2 + holdA + holdB
     for i, v in enumerate(vecs):
         v["vec"] = i
+        # every third vector: the cells are read before the prover is built (walks: nothing reset afterwards; dictionaries:
+        # alternately every cell partly read / all keys proven by another prover first; the root is reset per key as the API asks)
+        if i % 3 == 1:
+            v["preread"] = "readall" if v["t"] == "walk" or i % 2 else "prove-before"
         if "orig" in v:
             v["orig"] = [{"b": c["b"], "x": c["x"], "r": c["r"]} for c in v["orig"]]
         for f in ("selfcheck", "reqs", "twin", "forms", "vmode"):
@@ -231,11 +271,11 @@ def run(ck):
     stats = Counter()
     proofs = set()
     for tp in rtraces + dtraces:
-        mode, nreq, seg, two = "", 0, 0, False
+        mode, nreq, seg, two, pre = "", 0, 0, False, False
         for e in vlib.read_ndjson(tp):
             k = e.get("k")
             if k == "Reset":
-                mode, nreq, seg, two = e["mode"], 0, seg + 1, "orig" in e
+                mode, nreq, seg, two, pre = e["mode"], 0, seg + 1, "orig" in e, bool(e.get("preread"))
                 stats["%s_provers:%s" % (e["kind"], mode)] += 1
             elif k == "Key":
                 nreq += 1
@@ -243,6 +283,7 @@ def run(ck):
                     stats["dict_proofs"] += 1; proofs.add(e["proof"])
                     stats["dict_proofs_after_first_request"] += nreq > 1
                     stats["dict_proofs_two_step"] += two
+                    stats["dict_proofs_cells_read_before"] += pre
                 elif e["err"]:
                     stats["dict_refusals"] += 1; proofs.add((tp, seg, e["key"]))
             elif k == "Create":
@@ -251,9 +292,11 @@ def run(ck):
                     stats["walk_proofs"] += 1; proofs.add(e["proof"])
                     stats["walk_proofs_after_first_request"] += nreq > 1
                     stats["walk_proofs_two_step"] += two
+                    stats["walk_proofs_cells_read_before"] += pre
     if (stats["dict_proofs"] < 1500 or stats["dict_refusals"] < 800 or stats["walk_proofs"] < 1500
             or stats["dict_proofs_after_first_request"] < 1000 or stats["walk_proofs_after_first_request"] < 800
-            or stats["dict_proofs_two_step"] < 300 or stats["walk_proofs_two_step"] < 500):
+            or stats["dict_proofs_two_step"] < 300 or stats["walk_proofs_two_step"] < 500
+            or stats["dict_proofs_cells_read_before"] < 500 or stats["walk_proofs_cells_read_before"] < 500):
         raise Infra("too few proofs recorded (vacuous): %s" % dict(stats))
     for m in ("tree", "dag", "boc", "lib", "proof"):
         if not stats["dict_provers:" + m]:
@@ -294,9 +337,13 @@ def replay(ck, path):
         elif e.get("k") == "Key":
             print("  key %s: err=%r proof=%s" % (e["key"], e.get("msg", e["err"]), e["proof"]))
         elif e.get("k") == "Create":
-            print("  CreateProof(session %s): err=%r proof=%s" % (e["c"], e.get("msg", e["err"]), e["proof"]))
-        elif e.get("k") in ("Cursor", "Ref", "Up", "Prune"):
-            print("  %s session %s %s" % (e["k"], e["c"], e.get("i", "")))
+            print("  session %s: CreateProof(value %s): err=%r proof=%s" % (e["c"], e.get("h", 0), e.get("msg", e["err"]), e["proof"]))
+        elif e.get("k") == "Cursor":
+            print("  session %s: cursor value 0 := prover.Cursor()" % e["c"])
+        elif e.get("k") == "Ref":
+            print("  session %s: cursor value %s := value %s .Ref(%s)" % (e["c"], e["nh"], e["h"], e["i"]))
+        elif e.get("k") == "Prune":
+            print("  session %s: value %s .Prune()" % (e["c"], e["h"]))
     for t in res.tuples("NOTE"):
         print("rejected: line %s clause %s (%s)" % tuple(t[1:4]))
     if rej:
